@@ -21,7 +21,7 @@ META = {
         "driver, inside payloads, and as replacements for finished, garbage-collected services within one polling "
         "cycle; payloads that wait on a gate opened only after adopt returned (adopt must not wait for them); "
         "kind=storm: 40-130 services created (and some dropped) by 2-3 threads while the accept loop polls every 10-20 ms, with delay "
-        "injection also inside the WeakSet that registers the units; kind=redecorated: two forced schedules for a service class that is decorated twice (same / other flavour), the instance created while the accept loop polls between the two registrations (the recorded finding); kind=idle: nothing keeps the asyncio loop busy and asyncio payloads are adopted from outside, from a thread payload and "
+        "injection also inside the WeakSet that registers the units; kind=again: the steady scenario in the second run of a runner that was shut down once; kind=redecorated: two forced schedules for a service class that is decorated twice (same / other flavour), the instance created while the accept loop polls between the two registrations (the recorded finding); kind=idle: nothing keeps the asyncio loop busy and asyncio payloads are adopted from outside, from a thread payload and "
         "from a thread payload that drives a private event loop; kind=window: adoption from outside threads and from inside cleaning-up payloads while a trio payload with "
         "long shielded cleanup keeps the runtime in its shutdown phase. Non-trivial = >= 3 adoptions judged."
     ),
@@ -38,10 +38,11 @@ ARGS = [([], {}), ([1], {}), ([], {"k": 1}), ([1, "two"], {"k": 1}), ([[1, 2]], 
 def plan(tier, seed):
     if tier == "thorough":
         return [dict(seed=seed, shard=i, n=70, kind="steady") for i in range(12)] + [dict(seed=seed, shard="w%d" % i, n=40, kind="window") for i in range(4)] + \
-            [dict(seed=seed, shard="known", n=1, kind="known"), dict(seed=seed, shard="redecorated", n=2, kind="redecorated")] + [dict(seed=seed, shard="idle%d" % i, n=20, kind="idle") for i in range(2)] + \
+            [dict(seed=seed, shard="known", n=1, kind="known"), dict(seed=seed, shard="redecorated", n=2, kind="redecorated"), dict(seed=seed, shard="again0", n=40, kind="again"), dict(seed=seed, shard="again1", n=40, kind="again")] + [dict(seed=seed, shard="idle%d" % i, n=20, kind="idle") for i in range(2)] + \
         [dict(seed=seed, shard="storm%d" % i, n=25, kind="storm") for i in range(2)]
     return [dict(seed=seed, shard="idle", n=6, kind="idle"), dict(seed=seed, shard="storm", n=6, kind="storm")] + [dict(seed=seed, shard=i, n=6, kind="steady") for i in range(12)] + [dict(seed=seed, shard="w%d" % i, n=5, kind="window") for i in range(4)] + \
-        [dict(seed=seed, shard="known", n=1, kind="known"), dict(seed=seed, shard="redecorated", n=2, kind="redecorated")]
+        [dict(seed=seed, shard="known", n=1, kind="known"), dict(seed=seed, shard="redecorated", n=2, kind="redecorated"),
+         dict(seed=seed, shard="again0", n=3, kind="again"), dict(seed=seed, shard="again1", n=3, kind="again")]
 
 
 def leaf(rnd, pid, flavour=None, gate=False):
@@ -172,6 +173,19 @@ def gen_steady(rnd, spec):
     script.append(["quiesce", 0.5, 10.0])
     gen["script"] = script
     return {"watchdog": 40, "inject": common.inject_conf(rnd, 0.7), "generations": [gen], "meta": {"kind": "steady", "expected": expected, "dropped": dropped}}
+
+
+def gen_again(rnd, spec):
+    """The steady scenario in the *second* run of a runner that has been shut down once."""
+    case = gen_steady(rnd, spec)
+    first = {"accept_delay": 0.03, "payloads": [{"id": "warmup", "flavour": rnd.choice(common.FLAVOURS), "when": "queued", "program": [["sleep", 0.01]], "cleanup": {"kind": "none"}}],
+             "services": [], "grace": 0.15, "script": [["wait_running", 10], ["sleep", 0.1], ["shutdown"], ["expect_end", 8.0]]}
+    second = case["generations"][0]
+    second["reuse_runner"] = True
+    case["generations"] = [first, second]
+    case["meta"]["judge_gen"] = 1
+    case["meta"]["again"] = True
+    return case
 
 
 def gen_window(rnd, spec):
@@ -307,12 +321,16 @@ def judge(case, run, result):
     if trouble:
         result.inconc(trouble)
         return []
-    gen = case["generations"][0]
+    G = case["meta"].get("judge_gen", 0)
+    gen = case["generations"][G]
     specs = {p["id"]: p for p in gen["payloads"]}
     specs.update({"svc:" + s["id"]: s for s in gen["services"]})
     problems = []
     if gen.get("prestart_threads"):
         result.count("scenarios_with_concurrent_registration_before_start")
+    if case["meta"].get("again") and run.first("running-timeout", gen=G) and run.first("accept-ended", gen=0):
+        return [("in its second run (after one shutdown) the runner never reported that it accepts services and payloads: nothing created for "
+                 "that run can be started", None)]
     if common.watchdog_fired(run):
         mech = common.classify_hang(run)
         if mech == "adopt-trio-blocks-on-busy-trio-thread":
@@ -327,20 +345,20 @@ def judge(case, run, result):
         return []
     homes = {}
     # adopt calls: None, no exception, and not waiting for the payload
-    for e in run.of("return", op="adopt", gen=0):
+    for e in run.of("return", op="adopt", gen=G):
         if not e["value_is_none"]:
             problems.append(("adopt of %s returned a value other than None" % e["pid"], None))
-    for e in run.of("gate-timeout", gen=0):
+    for e in run.of("gate-timeout", gen=G):
         problems.append(("adopt of %s only returned after its payload had finished waiting: adopt waits for the payload" % e["pid"], None))
     if kind == "steady":
-        quiet = run.first("quiescent", gen=0)
+        quiet = run.first("quiescent", gen=G)
         if quiet is None:
             result.inconc("scenario did not reach quiescence")
             return []
-        for e in run.of("raised", op="adopt", gen=0):
+        for e in run.of("raised", op="adopt", gen=G):
             problems.append(("adopt of %s by %s raised %s(%s) while the runtime was running" % (e["pid"], e["by"], e["exc"], e["msg"]), None))
         for pid in case["meta"]["expected"]:
-            starts = [e for e in run.of("start", gen=0, pid=pid)]
+            starts = [e for e in run.of("start", gen=G, pid=pid)]
             before = [e for e in starts if e["seq"] < quiet["seq"]]
             sp = specs[pid]
             what = "service" if pid.startswith("svc:") else "payload"
@@ -365,34 +383,36 @@ def judge(case, run, result):
                 result.count("services_started_exactly_once")
                 result.count("services_of_shape_%s_started_exactly_once" % sp.get("shape", "plain"))
         for pid in case["meta"].get("dropped", []):
-            starts = run.of("start", gen=0, pid=pid)
+            starts = run.of("start", gen=G, pid=pid)
             if len(starts) > 1:
                 problems.append(("service %s (dropped after a while) was started %d times" % (pid, len(starts)), None))
             result.count("dropped_services_%s" % ("started_once" if starts else "collected_before_the_loop_saw_them"))
         result.count("adoptions_judged", len(case["meta"]["expected"]))
+        if case["meta"].get("again"):
+            result.count("scenarios_in_the_second_run_of_the_same_runner")
         if case["meta"].get("idle"):
             result.count("scenarios_with_idle_asyncio_loop")
         if case["meta"].get("storm"):
             result.count("service_storms")
-            ended = run.first("accept-ended", gen=0)
-            quiet_ = run.first("quiescent", gen=0)
+            ended = run.first("accept-ended", gen=G)
+            quiet_ = run.first("quiescent", gen=G)
             if ended is not None and quiet_ is not None and ended["seq"] < quiet_["seq"]:
                 problems.append(("the runtime ended by itself (%s: %s, cause chain %s) while services were being created from several threads"
                                  % (ended.get("exc"), ended.get("msg"), ended.get("reach")), None))
-        if run.of("gate-passed", gen=0):
-            result.count("gated_adopts_returned_before_payload_released", len(run.of("gate-passed", gen=0)))
+        if run.of("gate-passed", gen=G):
+            result.count("gated_adopts_returned_before_payload_released", len(run.of("gate-passed", gen=G)))
         if any(p["id"].startswith("burst") for p in gen["payloads"]):
             result.count("scenarios_with_bursts")
-        if run.of("call", op="drop_service", gen=0) or any(op[0] == "drop_service" for op in gen["script"]):
+        if run.of("call", op="drop_service", gen=G) or any(op[0] == "drop_service" for op in gen["script"]):
             result.count("scenarios_with_replaced_services")
     else:
-        trigger = run.first("call", gen=0, op="shutdown") or run.first("fail", gen=0, pid="trigger")
-        slow_done = run.first("cleanup-done", gen=0, pid="slow")
+        trigger = run.first("call", gen=G, op="shutdown") or run.first("fail", gen=G, pid="trigger")
+        slow_done = run.first("cleanup-done", gen=G, pid="slow")
         if trigger is None or slow_done is None:
             result.count("window_scenarios_without_window")
             return problems
         in_window = 0
-        for call in run.of("call", op="adopt", gen=0):
+        for call in run.of("call", op="adopt", gen=G):
             if call["seq"] < trigger["seq"]:
                 continue
             outcome = [e for e in run.events if e.get("op") == "adopt" and e.get("pid") == call["pid"] and e["kind"] in ("return", "raised") and e["seq"] > call["seq"]]
@@ -404,7 +424,7 @@ def judge(case, run, result):
                                  % (call["pid"], specs[call["pid"]]["flavour"], call["by"], outcome[0]["exc"], outcome[0]["msg"]), None))
             result.count("adopts_in_shutdown_window_%s" % ("inside" if call["by"].startswith("hand") else "outside"))
         for pid in case["meta"]["window"]:
-            starts = run.of("start", gen=0, pid=pid)
+            starts = run.of("start", gen=G, pid=pid)
             if len(starts) > 1:
                 problems.append(("payload %s adopted during shutdown was started %d times" % (pid, len(starts)), None))
             result.count("window_payloads_%s" % ("started" if starts else "discarded"))
@@ -451,13 +471,13 @@ def run_shard(spec):
         run_redecorated_shard(spec, result)
         return result
     only = spec.get("only_case")
-    gen = {"steady": gen_steady, "window": gen_window, "known": gen_known, "idle": gen_idle, "storm": gen_storm}[spec["kind"]]
+    gen = {"again": gen_again, "steady": gen_steady, "window": gen_window, "known": gen_known, "idle": gen_idle, "storm": gen_storm}[spec["kind"]]
     for i in range(spec["n"]):
         if only is not None and i != only:
             continue
         case = gen(core.rng(PID, spec["seed"], spec["shard"], i), spec)
         problems, run = execute(case, result)
-        result.case(common.sample(case, run, **{"kind": spec["kind"], "payloads": len(case["generations"][0]["payloads"]), "services": len(case["generations"][0]["services"])}),
+        result.case(common.sample(case, run, **{"kind": spec["kind"], "payloads": len(case["generations"][-1]["payloads"]), "services": len(case["generations"][-1]["services"])}),
                     nontrivial=len(run.of("start")) >= 3, key=common.shape(case))
         for what, mech in problems:
             clean = {k: v for k, v in spec.items() if k != "only_case"}
@@ -469,7 +489,8 @@ def finish(total, tier):
     need = ["adoptions_judged", "starts_exactly_once_asyncio", "starts_exactly_once_trio", "starts_exactly_once_threading", "services_started_exactly_once",
             "gated_adopts_returned_before_payload_released", "scenarios_with_idle_asyncio_loop", "service_storms", "scenarios_with_bursts", "scenarios_with_replaced_services",
             "window_adopts_judged", "adopts_in_shutdown_window_inside", "adopts_in_shutdown_window_outside",
-            "scenarios_with_concurrent_registration_before_start", "forced_redecorated_schedules_checked"]
+            "scenarios_with_concurrent_registration_before_start", "forced_redecorated_schedules_checked",
+            "scenarios_in_the_second_run_of_the_same_runner"]
     need += ["services_of_shape_%s_started_exactly_once" % k for k in ("plain", "subclass", "falsy", "redecorated", "valued")]
     need += ["payloads_adopted_repeatedly_before_start"]
     for name in need:
